@@ -361,9 +361,11 @@ func dedupe(xs []string) []string {
 // ---------------------------------------------------------------------------
 
 type c16Item struct {
-	name string
-	src  string
-	rec  *skRec // non-nil: skeleton with recorded markers (containment check)
+	name  string
+	src   string
+	files map[string]string // further source files (imports)
+	twice bool              // an import graph that reaches a file twice (its private functions are emitted twice: listed for C09)
+	rec   *skRec            // non-nil: skeleton with recorded markers (containment check)
 }
 
 func skProgramRec(seq []skNode, inFunc bool) (*Prog, *skRec) {
@@ -497,6 +499,8 @@ func c16BuiltinPrograms() []c16Item {
 				continue
 			}
 			out = append(out, c16Item{name: "builtin sole-statement-without-effect expr=" + e + " ctx=" + c, src: prelude + w[0] + e + "\n" + w[1]})
+			out = append(out, c16Item{name: "builtin two-statements-without-effect expr=" + e + " ctx=" + c, src: prelude + w[0] + e + "\nvi\n" + w[1]})
+			out = append(out, c16Item{name: "builtin three-statements-without-effect expr=" + e + " ctx=" + c, src: prelude + w[0] + "5\n" + e + "\n(vi)\n" + w[1]})
 		}
 	}
 	// empty blocks of every kind, many functions, deep nesting
@@ -598,12 +602,26 @@ func C16() int {
 		}
 	}
 	items = append(items, c16BuiltinPrograms()...)
+	for _, c := range c09Cases(r.Thorough()) { // multi-file programs: unused-function removal must not leave calls without a routine
+		files := map[string]string{}
+		for _, l := range c.libs {
+			files[fmt.Sprintf("l%d.tsh", l.id)] = withNonce(PrintProg(*c09LibProg(l)), c.nonce[l.id])
+		}
+		if c.localStd {
+			files["strings.tsh"] = "func Contains(s string, sub string) string {\n\treturn \"mine:\" + sub\n}\n"
+		}
+		items = append(items, c16Item{name: "imports " + c.name, src: PrintProg(*c09MainProg(c)), files: files, twice: c09ReachedTwice(c)})
+	}
 	{ // dedupe by source
 		seen := map[string]bool{}
 		var u []c16Item
 		for _, it := range items {
-			if !seen[it.src] {
-				seen[it.src] = true
+			k := it.src
+			for _, fk := range drive.SortedKeys(it.files) {
+				k += "\x00" + fk + "\x00" + it.files[fk]
+			}
+			if !seen[k] {
+				seen[k] = true
 				u = append(u, it)
 			}
 		}
@@ -621,8 +639,12 @@ func C16() int {
 			return
 		}
 		it := items[i]
-		rb := drive.TranspileSrc(it.src, drive.Bash)
-		rw := drive.TranspileSrc(it.src, drive.Batch)
+		fs := map[string]string{"main.tsh": it.src}
+		for k, v := range it.files {
+			fs[k] = v
+		}
+		rb := drive.Transpile(fs, "main.tsh", drive.Bash)
+		rw := drive.Transpile(fs, "main.tsh", drive.Batch)
 		mu.Lock()
 		done++
 		groups[strings.Fields(it.name)[0]]++
@@ -631,6 +653,9 @@ func C16() int {
 			r.Sample(map[string]string{"kind": strings.Fields(it.name)[0], "case": it.name, "source": clipN(it.src, 1200)})
 		}
 		fail := func(rule, detail string, script string) {
+			if it.twice && strings.HasPrefix(rule, "batch: label defined twice") {
+				rule = "batch: label defined twice (routine of a file that the import graph reaches twice)"
+			}
 			r.Fail("rule="+rule, fmt.Sprintf("%s: %s (%s)", it.name, rule, detail), func() findings.Replay {
 				return findings.Replay{Files: map[string]string{"src/main.tsh": it.src, "script.txt": script, "detail.txt": it.name + "\n" + rule + ": " + detail + "\n"}, Script: transpileOnlyReplay() + "\n# then: bash -n on the emitted .sh / structural reading of the emitted .bat (vcheck batstruct <file>)"}
 			})
@@ -641,7 +666,7 @@ func C16() int {
 		}
 		if !rb.OK() || !rw.OK() {
 			// C16 speaks about accepted programs; generated programs are meant to be accepted
-			if strings.HasPrefix(it.name, "builtin") || strings.HasPrefix(it.name, "skeleton") || strings.HasPrefix(it.name, "empty") {
+			if strings.HasPrefix(it.name, "builtin") || strings.HasPrefix(it.name, "skeleton") || strings.HasPrefix(it.name, "empty") || strings.HasPrefix(it.name, "imports") {
 				fail("generated-program-rejected", rb.Err+" / "+rw.Err, "")
 			}
 			return
